@@ -454,5 +454,9 @@ func TestC18(t *testing.T) {
 	} else {
 		parallelCases(vlib.Scale(16, 300), 8, func(i int) { c18AgentBinary(ev, bin, i) })
 	}
+	for _, nInv := range []int{32, 33, 60, 500} {
+		c18ManyInvalidPeers(ev, nInv+20, nInv, false)
+		c18ManyInvalidPeers(ev, nInv+20, nInv, true)
+	}
 	finish(t, ev)
 }
